@@ -178,14 +178,18 @@ STAKING_REACH_VOTES = ["VoteOk", "VoteExpired", "VoteTwice", "VoteByStranger", "
 STAKING_REACH_CANDS = ["DeclareOk", "DeclareExisting", "DeclareWrongCommission", "EditCandidateOk", "EditByNewOwner", "EditByStranger", "CommissionOk", "CommissionTooFar",
                        "CommissionTooSoon", "CommissionByControl", "NewCandidateIsValidator", "KeyChanged", "KeyChangedTwice", "KeyTaken", "KeyBlocked",
                        "KeyChangeByStranger", "ValidatorFollowsKey"]
+# unbounded lemmas about the payout split, the punishment cut and the accrual (Apalache, spec/ind/RewardsInd.tla)
+REWARD_LEMMAS = [("NextPayout", "NeverOverPaid"), ("NextPayout", "LargerStakeGetsNoLess"), ("NextCut", "CutAndKeepAddUp"), ("NextAccrue", "AccrualWithinShare")]
 MC["staking"] = {"quick": [("MCStaking", "mc/MCStaking_exits.cfg", {"reach": STAKING_REACH_EXITS}), ("MCStaking", "mc/MCStaking_punish.cfg", {"reach": STAKING_REACH_PUNISH}),
                            ("MCStaking", "mc/MCStaking_votes.cfg", {"reach": STAKING_REACH_VOTES}),
-                           ("MCStaking", "mc/MCStaking_cands.cfg", {"reach": STAKING_REACH_CANDS})],
+                           ("MCStaking", "mc/MCStaking_cands.cfg", {"reach": STAKING_REACH_CANDS}),
+                           ("RewardsInd", "ind/RewardsInd.tla", {"apalache": REWARD_LEMMAS})],
                  "thorough": [("MCStaking", "mc/MCStaking_exits_t.cfg", {"reach": STAKING_REACH_EXITS}), ("MCStaking", "mc/MCStaking_punish_t.cfg", {"reach": STAKING_REACH_PUNISH}),
                               ("MCStaking", "mc/MCStaking_votes.cfg", {"reach": STAKING_REACH_VOTES}),
                               ("MCStaking", "mc/MCStaking_cands.cfg", {"reach": STAKING_REACH_CANDS}),
                               # all menus together, 12 blocks, 8 transactions: far too large to enumerate, drawn at random for ten minutes
-                              ("MCStaking", "mc/MCStaking_sim.cfg", {"simulate": 600})]}
+                              ("MCStaking", "mc/MCStaking_sim.cfg", {"simulate": 600}),
+                              ("RewardsInd", "ind/RewardsInd.tla", {"apalache": REWARD_LEMMAS})]}
 def markets(tier, seed):
     rnd = random.Random("%d/markets" % seed)
     pool_model = gens_markets.from_pool_model(vlib.tlc_generate_raw("MCPools", "gen/MCPoolsGen.cfg", big=True))
@@ -194,7 +198,10 @@ def markets(tier, seed):
             + regress("markets"))
 
 
-MC["markets"] = {"quick": ("MCPools", "mc/MCPools_q.cfg"), "thorough": ("MCPools", "mc/MCPools.cfg")}
+# unbounded lemmas about one trade / one liquidity operation, for any reserves and amounts (Apalache, spec/ind/PoolsInd.tla)
+POOL_LEMMAS = [("NextSell", "TradeKeepsProduct"), ("NextBuy", "TradeKeepsProduct"), ("NextBuy", "BuyPaysBurn"), ("NextRemove", "RemoveAtMostShare"), ("NextAdd", "AddAtMostShare")]
+MC["markets"] = {"quick": [("MCPools", "mc/MCPools_q.cfg"), ("PoolsInd", "ind/PoolsInd.tla", {"apalache": POOL_LEMMAS})],
+                 "thorough": [("MCPools", "mc/MCPools.cfg"), ("PoolsInd", "ind/PoolsInd.tla", {"apalache": POOL_LEMMAS})]}
 
 
 def statesync(tier, seed):
